@@ -143,6 +143,18 @@ def runAll (w : World.W) : List String → Option (List String)
                 else if kind == "c" then some (World.runCheckOnlyW w f) else none)
       let rest ← runAll w' rs
       pure (encWorld w w' :: rest)
+    | [kind, first, evs, rl] => do
+      -- a new job for the same object: the file is replaced by another testcase, which is loaded again, then the run
+      let t ← (match rl.splitOn "/" with
+               | [b, p, r, a] => decTestcase b p r a
+               | _ => none)
+      let w : World.W := { w with disk := t.content, testcase := t }
+      let f ← decOutcome first
+      let es ← decEvs evs
+      let w' ← (if kind == "m" then some (World.runMainW w es f)
+                else if kind == "c" then some (World.runCheckOnlyW w f) else none)
+      let rest ← runAll w' rs
+      pure (encWorld w w' :: rest)
     | _ => none
 
 def cmdWorld (b p r a disk runs : String) : String :=
